@@ -19,6 +19,7 @@ TNext == /\ l <= Len(Traces[tid])
          /\ \/ (Ev.op = "tx" /\ TStep(Tx(Ev.c, Ev.a[1])))
             \/ (Ev.op = "peersend" /\ TStep(PeerSend(Ev.c, Ev.a[1])))
             \/ (Ev.op = "pass" /\ TStep(Pass(PlanOf(Ev.a))))
+            \/ (Ev.op = "accept" /\ TStep(Accept([c \in Conns |-> Ev.a[c]])))
 TSpec == TInit /\ [][TNext]_tvars
 Progress == PrintT(<<"AT", tid, l>>)
 ====
